@@ -70,9 +70,30 @@ func diffWordsToRunes(doc *indexedDocument, start, end int) []rune {
 	runes := make([]rune, 0, end-start)
 
 	for _, t := range doc.Tokens[start:end] {
-		runes = append(runes, rune(t.ID))
+		runes = append(runes, tokenRune(t.ID))
 	}
 	return runes
+}
+
+// tokenRune returns the rune that stands for a token ID in the text handed to
+// go-diff. The UTF-16 surrogate range is skipped: go-diff turns the runes into a
+// string and back, and every rune in that range comes back as U+FFFD, which
+// would make all tokens with such an ID (dictionaries of more than 55295 words)
+// look alike to the diff.
+func tokenRune(id tokenID) rune {
+	r := rune(id)
+	if r >= 0xD800 {
+		r += 0xE000 - 0xD800
+	}
+	return r
+}
+
+// runeToken is the inverse of tokenRune.
+func runeToken(r rune) tokenID {
+	if r >= 0xE000 {
+		r -= 0xE000 - 0xD800
+	}
+	return tokenID(r)
 }
 
 // diffRunesToWords rehydrates the text in a diff from a string of word hashes to real words of text.
@@ -83,7 +104,7 @@ func diffRunesToWords(diffs []diffmatchpatch.Diff, dict *dictionary) []diffmatch
 		var sb strings.Builder
 
 		for i, r := range chars {
-			sb.WriteString(dict.getWord(tokenID(r)))
+			sb.WriteString(dict.getWord(runeToken(r)))
 			if (i + 1) < len(chars) {
 				sb.WriteByte(' ')
 			}
